@@ -76,6 +76,10 @@ chk("C15", E1, "model_checking",
     "172 configurations (CID length pairs {none,0,1,4,8}^2 x DTLS 1.2/1.3 x RRC negotiated or stripped by a hello hook x observed side) x every event sequence of depth <=2-3 (thorough 3-4) over a 19-event alphabet (re-sourced, replayed, stale, forged, mis-wrapped, wrong-CID records; path_response delivered / dropped / late / wrong address / wrong cookie; second candidate path; ticks; application writes) on real endpoints with three extra addresses, judged by a reference model of RFC 9146 §6 / RFC 9853 (acceptance needs the own CID, emitted records carry the peer's CID, RemoteAddr changes only after authentic-newest + timely matching response + RRC negotiated, 3x amplification bound); plus listener routing over CID size x listener state x a datagram catalogue x source addresses.",
     "stateless model checking of the implementation: exhaustive event-sequence enumeration against a reference migration model")
 
+chk("C20", E1, "model_checking",
+    "Established DTLS 1.3 pair: every operation sequence of length <=3 (thorough 4-5) over {UpdateKeys with/without RequestPeerUpdate on either side, Write on either side} started with overlaps, x every delivery schedule with <=1-2 deviations over the data-phase datagrams, late copies of every datagram, forged records under not-yet-authorised and older generations at every quiescent point, 4-5 updates in a row, CID and other suites; every emitted record is decrypted with keys the reference derives from the first application traffic secrets; oracle: UpdateKeys nil only after a covering ACK was delivered, exactly-once unmodified delivery, sending epoch never decreases, every record opens under a reference generation, unauthorised-epoch records are never delivered. Plus the E2 layer: UpdateKeys racing Writes under every schedule with <=1 (quick) / 3 (thorough) preemptions at the library's lock and atomic operations.",
+    "stateless model checking of the implementation: exhaustive operation-sequence x schedule enumeration with a reference-keyed decoder; CHESS-style preemption-bounded interleaving exploration")
+
 props = [json.loads(l) for l in open('/verif/properties.jsonl')]
 PENDING = "check not built yet in this session (planned in DESIGN.md §5); not a claim that the technique cannot apply"
 NA = {}
